@@ -62,7 +62,9 @@ def hostile_names(rng, sb, url, cn, k=4):
     return out
 
 
-def run_one(chk, sseed):
+def run_one(chk, sseed, directed=None):
+    """directed: None | "hash-field" | "mixed" - corpus scenarios of the two fixed hash-field findings (F-C06a and the
+    mixed-flavour variant), forced instead of left to chance"""
     rng = random.Random(sseed)
     w = common.World(rng, 1, select_all=True)
     try:
@@ -74,6 +76,8 @@ def run_one(chk, sseed):
         repo = w.repos[0]
         url = repo["url"]
         policy = rng.choice(["", "by-hash=force", "by-hash=no", ""])
+        if directed:
+            policy = rng.choice(["", "by-hash=force"]) if directed == "hash-field" else ""
         if policy:
             lines = [ln.replace("deb [", f"deb [{policy} ").replace("deb-", "deb-") if ln.startswith("deb [") else ln for ln in w.lines]
             w.lines = lines
@@ -84,6 +88,13 @@ def run_one(chk, sseed):
             return
         cn = sorted(repo["codenames"])[0]
         cs = repo["codenames"][cn]
+        if directed:
+            cs["by_hash"] = True
+        # a binary index directory the configuration really selects (the hostile hash entries are placed there)
+        sel = [(c, a) for c, v in sorted(w.cfgs[url]["codenames"][cn].items()) for a in v["arches"]
+               if a in cs["components"].get(c, {}).get("binaries", {})]
+        hcomp, harch = sel[0] if sel else ("main", "amd64")
+        hdir = f"{hcomp}/binary-{harch}"
         kinds = []
         extra_store = {}
         hostile = []
@@ -94,20 +105,20 @@ def run_one(chk, sseed):
                 continue
             seen_names.add(nm)
             size = rng.randint(1, 9)
-            field = rng.choice(["release-name", "hash-field"])
+            field = rng.choice(["release-name", "hash-field"]) if directed != "hash-field" else "hash-field"
             if field == "release-name":
                 hostile.append({"name": nm, "size": size, "hash": "ab" * 16})
                 key = str(PurePosixPath(f"dists/{cn}") / nm)
                 extra_store[key] = (upstream.blob(nm, size), cs["date"])
             else:
-                good = f"main/binary-amd64/Evil{len(hostile)}.gz"
+                good = f"{hdir}/Evil{len(hostile)}.gz"
                 hostile.append({"name": good, "size": size, "hash": nm})
                 key = str(PurePosixPath(f"dists/{cn}") / good)
                 extra_store[key] = (upstream.blob(good, size), cs["date"])
-                hk = str(PurePosixPath(f"dists/{cn}/main/binary-amd64/by-hash/SHA256") / nm)
+                hk = str(PurePosixPath(f"dists/{cn}/{hdir}/by-hash/SHA256") / nm)
                 extra_store[hk] = (upstream.blob(good, size), cs["date"])
                 for alg in ("MD5Sum", "SHA1", "SHA512"):
-                    extra_store[str(PurePosixPath(f"dists/{cn}/main/binary-amd64/by-hash/{alg}") / nm)] = (upstream.blob(good, size), cs["date"])
+                    extra_store[str(PurePosixPath(f"dists/{cn}/{hdir}/by-hash/{alg}") / nm)] = (upstream.blob(good, size), cs["date"])
             kinds.append((field, shape))
         cs["hostile"] = hostile
         # hostile Packages / Sources entries
@@ -128,7 +139,7 @@ def run_one(chk, sseed):
                         kinds.append(("source-file", shape))
         # release flavours that disagree on Acquire-By-Hash: InRelease (read first) without it and listing the files under
         # another checksum section whose "hashes" are hostile, Release with it
-        if rng.random() < 0.35 and not policy.endswith("no"):
+        if (rng.random() < 0.35 and not policy.endswith("no")) or directed == "mixed":
             cs["flavours"] = ["InRelease", "Release"]
             cs["by_hash"] = True
             cs["algos"] = ["SHA256"]
@@ -146,7 +157,7 @@ def run_one(chk, sseed):
             body = list(head) + ["MD5Sum:"]
             names = hostile_names(rng, w.sb, url, cn, 3)
             for i, (h, size, name) in enumerate(entries):
-                if name.startswith("main/binary-amd64/Evil"):
+                if "/Evil" in name:
                     continue
                 hv = ("%032x" % i)
                 if i < len(names) and name not in ("Release", "InRelease"):
@@ -162,7 +173,7 @@ def run_one(chk, sseed):
         allowed = [os.path.normpath(runner.skel_dir(w.sb, url)), os.path.normpath(runner.mirror_dir(w.sb, url)),
                    os.path.normpath(w.sb.var)]
         res = run_e2e.execute(w.sb, [repo], {url: store}, {}, vloop.RandomChooser(rng.randrange(1 << 30)))
-        replay = {"scenario_seed": sseed, "lines": w.lines, "hostile_kinds": kinds,
+        replay = {"scenario_seed": sseed, "directed": directed, "lines": w.lines, "hostile_kinds": kinds,
                   "hostile_release": hostile}
         bad = []
         for op, paths, extra in res.trace.events:
@@ -265,6 +276,10 @@ def path_correspondence(chk, rng, n):
 def run(chk, tier, rng):
     path_correspondence(chk, rng, 600 if tier == "quick" else 20000)
     n = 80 if tier == "quick" else 2000
+    # corpus first: the two hash-field attacks that were genuine findings, forced (6 worlds each)
+    for i in range(6):
+        run_one(chk, f"C06-corpus-hash-{chk.seed}-{i}", directed="hash-field")
+        run_one(chk, f"C06-corpus-mixed-{chk.seed}-{i}", directed="mixed")
     for i in range(n):
         run_one(chk, f"C06-{chk.seed}-{i}")
     chk.assumptions += ["S2: no symlinks inside skel/mirror (lexical normalisation = resolution)",
@@ -275,7 +290,7 @@ def replay(rep):
     from core.check import Check
     chk = Check("C06", "quick", 0)
     chk.known = []
-    run_one(chk, rep["replay"]["scenario_seed"])
+    run_one(chk, rep["replay"]["scenario_seed"], rep["replay"].get("directed"))
     for sig, path, msg, _ in chk.violations:
         print(f"REPLAY VIOLATION {sig}: {msg}")
     return 1 if chk.violations else 0
